@@ -53,9 +53,13 @@ Definition pgmsg_eqb (a b : pgmsg) : bool :=
   end.
 (* the bytes Go's allocator handed out during the call (runtime.MemStats.TotalAlloc) stay within a
    constant factor of the model's measure: size-class rounding, amortised append growth, small
-   bookkeeping objects (readers, result structs, harness goroutine, an error value with its
-   captured stack: pkg/errors.New costs about 4.5 KiB) *)
-Definition alloc_ok (model observed : N) : bool := observed <=? 4 * model + 8192.
+   bookkeeping objects (readers, result structs, harness goroutine).
+   Error values of immudb's pkg/errors capture a stack trace whose size depends on the depth of the
+   caller, not on the input: their cost is taken out of the observation before the comparison --
+   errbytes for the errors the caller received (computed by the harness from the length of each
+   trace), errunit (the same for an error built at the depth of the receivers' Read) times the
+   number of such errors the model says were constructed and dropped. *)
+Definition alloc_ok (model observed : N) : bool := observed <=? 4 * model + 4096.
 Definition frame_eqb (a b : N * bytes * bytes) : bool :=
   let '(t, p, r) := a in let '(t', p', r') := b in (t =? t') && bytes_eqb p p' && bytes_eqb r r'.
 
@@ -63,44 +67,53 @@ Definition frame_eqb (a b : N * bytes * bytes) : bool :=
 (* switch to true when fixes/C16-stream-message-length.diff is committed in /repo *)
 Definition stream_is_fixed : bool := true.
 
-(* one step of the loop a stream handler runs on a msgReceiver: the byte strings it obtains *)
-Definition st_step := mrecv -> M (list bytes * mrecv).
+(* errors of pkg/stream built with pkg/errors.New, which captures the goroutine's stack trace
+   (debug.Stack: buffers of 1, 2, 4, .. KiB until the trace fits, plus the trace as a string) *)
+Definition is_stack_err (e : N) : bool :=
+  (e =? ESInvalidLength) || (e =? ESChunkTooSmall) || (e =? ESNotImplemented).
+
+(* one step of the loop a stream handler runs on a msgReceiver: the byte strings it obtains and
+   the number of stack-capturing error values constructed and DROPPED inside the step (the caller
+   never sees them: exec-all ignores the error of the ReadValue of a ZAdd body) *)
+Definition st_step := mrecv -> M (list bytes * N * mrecv).
 Definition rd_step (bs : N) : st_step := fun r =>
   dom x <- mr_read stream_is_fixed bs r;
-  match x with (RD d, r') => mret ([d], r') | (REOF, _) => merr ESEOF end.
+  match x with (RD d, r') => mret ([d], 0, r') | (REOF, _) => merr ESEOF end.
 Definition kv_step (bs : N) : st_step := fun r =>
   dom x <- kv_next stream_is_fixed bs r; let '(k, r) := x in
   dom y <- read_value_e stream_is_fixed bs r; let '(v, r) := y in
-  mret ([k; v], r).
+  mret ([k; v], 0, r).
 Definition z_step (bs : N) : st_step := fun r =>
   dom x <- z_next stream_is_fixed bs r; let '(set, key, score, attx, r) := x in
   dom y <- read_value_e stream_is_fixed bs r; let '(v, r) := y in
-  mret ([set; key; be_enc 8 score; be_enc 8 attx; v], r).
+  mret ([set; key; be_enc 8 score; be_enc 8 attx; v], 0, r).
 Definition ve_step (bs : N) : st_step := fun r =>
   dom x <- ventry_next stream_is_fixed bs r; let '(a, b, c, r) := x in
   dom y <- read_value_e stream_is_fixed bs r; let '(v, r) := y in
-  mret ([a; b; c; v], r).
+  mret ([a; b; c; v], 0, r).
 Definition ea_step (bs : N) : st_step := fun r =>
   dom x <- execall_next stream_is_fixed bs r; let '(op, r) := x in
   match op with
-  | EKv key => dom y <- read_value_e stream_is_fixed bs r; let '(v, r) := y in mret ([[1]; key; v], r)
-  | EZAdd _ => mret ([[2]], r)
+  | EKv key => dom y <- read_value_e stream_is_fixed bs r; let '(v, r) := y in mret ([[1]; key; v], 0, r)
+  | EZAdd _ dropped =>
+      mret ([[2]], match dropped with Some e => if is_stack_err e then 1 else 0 | None => 0 end, r)
   end.
 Definition st_step_of (kind bs : N) : st_step :=
   if kind =? 0 then rd_step bs else if kind =? 1 then kv_step bs else if kind =? 2 then z_step bs
   else if kind =? 3 then ve_step bs else ea_step bs.
 
-(* the handler loop: at most cap steps, stops at the first error / panic *)
-Fixpoint st_drive (step : st_step) (cap : nat) (r : mrecv) (acc : list (list bytes)) (al : N)
-  : list (list bytes) * bool * N :=
+(* the handler loop: at most cap steps, stops at the first error / panic:
+   items, panicked?, bytes allocated, dropped stack-capturing errors *)
+Fixpoint st_drive (step : st_step) (cap : nat) (r : mrecv) (acc : list (list bytes)) (al nd : N)
+  : list (list bytes) * bool * N * N :=
   match cap with
-  | O => (rev acc, false, al)
+  | O => (rev acc, false, al, nd)
   | S c =>
     let m := step r in
     match fst m with
-    | Ok (item, r') => st_drive step c r' (item :: acc) (al + snd m)
-    | Err _ => (rev acc, false, al + snd m)
-    | Panic => (rev acc, true, al + snd m)
+    | Ok (item, d, r') => st_drive step c r' (item :: acc) (al + snd m) (nd + d)
+    | Err _ => (rev acc, false, al + snd m, nd)
+    | Panic => (rev acc, true, al + snd m, nd)
     end
   end.
 Definition items_eqb := list_eqb (list_eqb bytes_eqb).
@@ -151,8 +164,9 @@ Inductive case :=
    bs = buffer / chunk size: the items obtained, panicked?, bytes allocated *)
 | CStream (kind : N) (chunks : list bytes) (final : bool) (bs cap : N)
           (items : list (list bytes)) (panicked : bool) (allocated : N)
+          (errbytes errunit : N)
 (* msgReceiver.ReadFully *)
-| CStFully (chunks : list bytes) (final : bool) (out : res bytes) (allocated : N)
+| CStFully (chunks : list bytes) (final : bool) (out : res bytes) (allocated errbytes : N)
 (* tbtree: cLogEntry.deserialize + isValid on a 100-byte entry, and the outcome class of the two
    appendable.Checksum calls OpenWith makes for a valid entry (0 value or EOF, 1 other error, 2 panic) *)
 | COtEntry (b : bytes) (e : clog_entry) (valid : bool) (ck : N)
@@ -189,14 +203,14 @@ Definition case_ok (c : case) : bool :=
   | CPgFrame mx c o a =>
       let m := raw_read mx c in
       res_eqb frame_eqb (fst m) o && alloc_ok (snd m) a
-  | CStream kind chunks final bs cap items p a =>
-      let '(its, pp, al) :=
+  | CStream kind chunks final bs cap items p a eb eu =>
+      let '(its, pp, al, nd) :=
         st_drive (st_step_of kind bs) (N.to_nat cap)
-                 (mr_new {| s_chunks := chunks; s_final_eof := final |}) [] 0 in
-      items_eqb its items && Bool.eqb pp p && alloc_ok al a
-  | CStFully chunks final o a =>
+                 (mr_new {| s_chunks := chunks; s_final_eof := final |}) [] 0 0 in
+      items_eqb its items && Bool.eqb pp p && alloc_ok al (a - (eb + nd * eu))
+  | CStFully chunks final o a eb =>
       let m := read_fully stream_is_fixed {| s_chunks := chunks; s_final_eof := final |} in
-      res_eqb bytes_eqb (fst m) o && alloc_ok (snd m) a
+      res_eqb bytes_eqb (fst m) o && alloc_ok (snd m) (a - eb)
   | COtEntry b e valid ck =>
       res_eqb clog_entry_eqb (clog_deser b) (Ok e) &&
       Bool.eqb (clog_valid tbtree_open_is_fixed e) valid &&
